@@ -137,10 +137,27 @@ theorem getLaplacian_spec {a l : Mat} (h : getLaplacian a = .ok l) :
       sumTo_congr (fun j hj => by simp [hj])
     rw [this]; ring
 
+theorem rmax_pos (x y : Rat) : 0 < rmax x y ↔ (0 < x ∨ 0 < y) := by
+  unfold rmax
+  split
+  · rename_i h
+    constructor
+    · intro hy; exact Or.inr hy
+    · rintro (hx | hy)
+      · linarith
+      · exact hy
+  · rename_i h
+    have h' : y ≤ x := not_lt.mp h
+    constructor
+    · intro hx; exact Or.inl hx
+    · rintro (hx | hy)
+      · exact hx
+      · linarith
+
 theorem directed2undirected_spec {a m : Mat} {weighted : Bool} (h : directed2undirected a weighted = .ok m) :
     a.nRow = a.nCol ∧ m.nRow = a.nRow ∧ m.nCol = a.nCol ∧
     (∀ i j, i < a.nRow → j < a.nRow →
-      m.get i j = if weighted then a.get i j + a.get j i else (if a.get i j + a.get j i ≠ 0 then 1 else 0)) ∧
+      m.get i j = if weighted then a.get i j + a.get j i else (if 0 < a.get i j ∨ 0 < a.get j i then 1 else 0)) ∧
     (∀ i j, m.get i j = m.get j i) := by
   unfold directed2undirected at h
   split at h
@@ -159,10 +176,10 @@ theorem directed2undirected_spec {a m : Mat} {weighted : Bool} (h : directed2und
       simp only [Bool.false_eq_true, if_false] at h
       cases h
       refine ⟨hsq', rfl, rfl, fun i j hi hj => ?_, fun i j => ?_⟩
-      · rw [Mat.get_ofFn]; simp [hi, hsq' ▸ hj]
+      · rw [Mat.get_ofFn]; simp [hi, hsq' ▸ hj, rmax_pos]
       · rw [Mat.get_ofFn, Mat.get_ofFn]
         by_cases h1 : i < a.nRow <;> by_cases h2 : j < a.nRow
-        · simp [h1, h2, hsq' ▸ h1, hsq' ▸ h2, add_comm]
+        · simp [h1, h2, hsq' ▸ h1, hsq' ▸ h2, rmax_pos, or_comm]
         · have : ¬ j < a.nCol := hsq' ▸ h2
           simp [h2, this]
         · have : ¬ i < a.nCol := hsq' ▸ h1
